@@ -6,6 +6,7 @@
 //! orders, trees, flows) validity + optimal value is asserted, never one particular answer.
 
 pub mod graphs;
+pub mod leapfrog;
 pub mod model;
 
 use std::collections::{BTreeMap, BTreeSet, HashMap};
@@ -1379,7 +1380,7 @@ pub fn run(r: &mut Run) {
               {missing, Int, dyadic Float, Str, Bool, Null}; negative weights only in sub-check `negative`; every source, target \
               and start on graphs of <= 12 nodes (flows <= 7), selected ones above. Non-trivial = the graph has a parallel or \
               anti-parallel edge, two non-loop edges of equal effective weight, a zero-weight cycle or >= 2 weak components \
-              (flows additionally: some pair has positive max flow; `negative`: also any negative edge). Distinct by hash of the case."
+              (flows additionally: some pair has positive max flow; `negative`: also any negative edge). leapfrog_trie / leapfrog_operator: non-trivial = >= 2 relations with a non-empty intersection that is a proper subset of some relation (or arity >= 2) / >= 2 inputs, a non-empty result, a duplicate key and an input in >= 2 chunks. Distinct by hash of the case."
         .into();
     r.assumptions.push("conventions read from the code: weight/capacity default 1.0, cost default 0.0, non-numeric property -> default; Kruskal/Prim/components/triangles/k-core/bridges/articulation points treat edges as undirected; bridges, articulation points, triangles and k-core work on neighbour SETS (parallel edges merged, so a doubled edge can be a bridge)".into());
     r.assumptions.push("k-core: a self-loop counts as one neighbour (the code's reading; 'degree' with self-loops is not defined by the docs); triangles/clustering: a self-loop is not a neighbour ('a set of three nodes')".into());
@@ -1389,6 +1390,7 @@ pub fn run(r: &mut Run) {
     r.assumptions.push("min-cost flow: capacities and costs non-negative; half of the `mincost` cases are generated pair-clean (one cost per ordered pair, no anti-parallel pair) so that the open finding C19-mincost-pair-matrix cannot apply and cost minimality is strict there".into());
     r.assumptions.push("ShortestPathOperator (query-engine anchor): hop distance per input pair for the three directions, and with all_paths one row per shortest edge sequence (parallel edges distinct), Null row when unreachable; pairs whose path count exceeds 2000 are skipped".into());
     r.assumptions.push("community detection (label propagation, Louvain) has no exact specification: only partition of the node set, no community across weak components, contiguous labels / consistent counts, finite modularity <= 1".into());
+    r.assumptions.push("leapfrog (worst-case-optimal join anchor): relations are sets of equal-arity node-id tuples (1-5 relations, arity 1-3; empty / singleton / equal / nested / disjoint / overlapping; duplicate tuples; ids 0, 2^63, u64::MAX); the level-by-level LeapfrogJoin must enumerate exactly their intersection in increasing order. LeapfrogJoinOperator: every input lists the same number of key columns (position i of every list is join variable i — the only reading its constructor admits), key columns are Int64- or Node-typed vectors (other types are documented as unsupported), a NULL key joins nothing; output compared as a multiset with the nested-loop equi-join over all inputs".into());
     r.assumptions.push("Prim returns a minimum spanning tree of the start node's weak component only (it 'grows the MST from a starting node'); Kruskal = Prim is asserted on weakly connected graphs".into());
 
     let max_n = if r.is_thorough() { 40 } else { 10 };
@@ -1413,4 +1415,6 @@ pub fn run(r: &mut Run) {
     r.subcheck("centrality", r.cases(20_000, 400_000), nn, |c: &Case| with_deadline("centrality", c, check_centrality));
     r.subcheck("sp_operator", r.cases(10_000, 200_000), nn, |c: &Case| with_deadline("sp_operator", c, check_sp_operator));
     r.subcheck("community", r.cases(10_000, 200_000), nn, |c: &Case| with_deadline("community", c, check_community));
+    r.subcheck("leapfrog_trie", r.cases(20_000, 400_000), leapfrog::trie_case_strategy, leapfrog::trie_check);
+    r.subcheck("leapfrog_operator", r.cases(6_000, 100_000), leapfrog::op_case_strategy, leapfrog::operator_check);
 }
